@@ -93,6 +93,9 @@ func genCfg(r *rand.Rand, documented bool) acCfg {
 		if bad(10) {
 			return pick(r, "", "sX")
 		}
+		if bad(10) { // an id that differs from an existing one only in case is a different id
+			return strings.ToUpper(c.Sensors[r.Intn(len(c.Sensors))].ID)
+		}
 		return c.Sensors[r.Intn(len(c.Sensors))].ID
 	}
 	nc := 1 + r.Intn(8)
@@ -140,7 +143,7 @@ func genCfg(r *rand.Rand, documented bool) acCfg {
 				cu.Members = []string{}
 			}
 			if bad(8) {
-				cu.Members = append(cu.Members, pick(r, "cX", cu.ID, fmt.Sprintf("c%d", 1+r.Intn(nc))))
+				cu.Members = append(cu.Members, pick(r, "cX", cu.ID, fmt.Sprintf("c%d", 1+r.Intn(nc)), fmt.Sprintf("C%d", 1+r.Intn(i+1))))
 			}
 		}
 		c.Curves = append(c.Curves, cu)
@@ -160,7 +163,12 @@ func genCfg(r *rand.Rand, documented bool) acCfg {
 			if cu.Fn == "" || cu.Fn == "median" {
 				cu.Fn = pick(r, "sum", "maximum", "average", "delta")
 			}
-			cu.Members = append(cu.Members, c.Curves[next].ID)
+			// the member that closes the cycle sits anywhere in the list: first, in the middle, last
+			at := r.Intn(len(cu.Members) + 1)
+			cu.Members = append(cu.Members[:at], append([]string{c.Curves[next].ID}, cu.Members[at:]...)...)
+			if r.Intn(2) == 0 {
+				cu.Members = append(cu.Members, c.Curves[r.Intn(nc)].ID)
+			}
 		}
 	}
 	nf := 1 + r.Intn(2)
@@ -168,7 +176,7 @@ func genCfg(r *rand.Rand, documented bool) acCfg {
 		f := acFan{ID: fmt.Sprintf("f%d", i+1), Nb: 1, AlgOk: true, HwOk: true, kinds: []string{pick(r, "file", "cmd", "hwmon")}}
 		f.Curve = c.Curves[r.Intn(len(c.Curves))].ID
 		if bad(10) {
-			f.Curve = pick(r, "", "cX")
+			f.Curve = pick(r, "", "cX", strings.ToUpper(f.Curve))
 		}
 		if bad(12) {
 			f.ID = "f1"
